@@ -381,6 +381,8 @@ class ModAnalysis:
         """Fresh(e): result of an allocator / of a function returning fresh memory, NULL, or a
         local all of whose assignments are fresh.  Returns (bool, reason)."""
         _seen = _seen or set()
+        if e.is_null_const():
+            return True, "NULL"
         e = e.strip()
         if e.is_null_const():
             return True, "NULL"
